@@ -307,15 +307,27 @@ def run_retry(shard, mon):
     sys.path.insert(0, env.REPO)
     failures = 0
     for attempt in range(2):
+        stage = "import"
         try:
             importlib.import_module("schwifty")
+            # a tree may read its registries at first use instead of at import time: the attempt includes a
+            # first use of both registries and of the derived look-up tables
+            stage = "first use"
+            reg = importlib.import_module("schwifty.registry")
+            reg.get("iban")
+            reg.get("bank")
+            sw = sys.modules["schwifty"]
+            sw.IBAN("DE89370400440532013000").bic
+            sw.BIC.candidates_from_bank_code("DE", "37040044")
             break
         except Exception:  # noqa: BLE001
             failures += 1
-            for name in [n for n in sys.modules if n == "schwifty" or n.startswith("schwifty.")]:
-                if name not in ("schwifty.registry", "schwifty.exceptions", "schwifty.domain", "schwifty.common"):
-                    # what a retrying application sees: modules that were imported successfully stay imported
-                    del sys.modules[name]
+            mon.tally(f"retry_failed_at_{stage.replace(' ', '_')}")
+            if stage == "import":
+                for name in [n for n in sys.modules if n == "schwifty" or n.startswith("schwifty.")]:
+                    if name not in ("schwifty.registry", "schwifty.exceptions", "schwifty.domain", "schwifty.common"):
+                        # what a retrying application sees: modules that were imported successfully stay imported
+                        del sys.modules[name]
             with open(path, "w", encoding="utf-8") as fp:
                 js.dump(good, fp)
     mon.tally("import_failures_before_success", failures)
